@@ -21,8 +21,10 @@ IdxC  == {"first", "last", "nq", "255", "max32"}
 NumC  == {"zero", "one", "three", "max", "max+1", "65535", "65536", "max32"}
 AddrC == {"in", "unaligned", "last-bytes", "end", "before", "zero", "2^63", "top-16", "max"}
 FlagC == {"none", "log", "undefined"}
-RegC  == [gpa : {"zero", "page", "2^63", "top-2pages", "top-page"}, size : {"zero", "page", "beyond-file", "2^63", "max-page"},
-          ua : {"page", "mid", "2^63", "top-2pages", "top-page"}, off : {"zero", "page", "2^63", "top-page"}]
+\* ("mapped": the value the one legitimately mapped region has in that field -- a descriptor that agrees with an existing region in
+\*  some fields and not in others reaches the code that looks regions up)
+RegC  == [gpa : {"zero", "page", "2^63", "top-2pages", "top-page", "mapped"}, size : {"zero", "page", "beyond-file", "2^63", "max-page", "mapped"},
+          ua : {"page", "mid", "2^63", "top-2pages", "top-page", "mapped"}, off : {"zero", "page", "2^63", "top-page"}]
 CfgC  == [off : {"zero", "in", "end-1", "end", "max32"}, size : {"zero", "one", "window", "window+1", "max32"}]
 
 L(k, f) == [k |-> k, f |-> f]
